@@ -205,7 +205,8 @@ def alphabet(full=True):
         for cl in ((1, 8, 20) if full else (8,)):
             add(f"NEW_CONNECTION_ID/{cl}/w{w}", new_connection_id(2, bytes(range(0x41, 0x41 + cl)), w=w))
         add(f"RETIRE_CONNECTION_ID/w{w}", retire_connection_id(w=w))
-        for r in ((b"", b"bye") if full else (b"x",)):
+        # reason phrases: empty, ASCII, and bytes that are no valid UTF-8 (RFC 9000 19.19: SHOULD be UTF-8, so they are well-formed)
+        for r in ((b"", b"bye", b"\xe9t\xe9\xff") if full else (b"x", b"\xff\xfe")):
             add(f"CONNECTION_CLOSE/{len(r)}/w{w}", connection_close(reason=r, w=w))
             add(f"CONNECTION_CLOSE_APP/{len(r)}/w{w}", connection_close(reason=r, app=True, w=w))
         for d in ((b"d", b"dgram") if full else (b"dg",)):
